@@ -1530,11 +1530,20 @@ int ov_pcm_seek_page(OggVorbis_File *vf,ogg_int64_t pos){
         bisect=begin;
       }else{
         /* take a (pretty decent) guess. */
-        bisect=begin +
-          (ogg_int64_t)((double)(target-begintime)*(end-begin)/(endtime-begintime))
-          - CHUNKSIZE;
+        if(endtime>begintime)
+          bisect=begin +
+            (ogg_int64_t)((double)(target-begintime)*(end-begin)/(endtime-begintime))
+            - CHUNKSIZE;
+        else
+          bisect=begin; /* a link with no length on record (granule
+                           positions missing or lying): nothing to
+                           interpolate, and 0/0 is not an offset */
         if(bisect<begin+CHUNKSIZE)
           bisect=begin;
+        /* the guess must stay inside the window however wrong the
+           granule positions are */
+        if(bisect>end-CHUNKSIZE)
+          bisect=end-CHUNKSIZE;
       }
 
       result=_seek_helper(vf,bisect);
